@@ -61,10 +61,11 @@ struct OpOut {
 };
 
 struct Script {
-    gen::Csr A, Aalt, Asing, Apert;
+    gen::Csr A, Aalt, Asing, Apert, Ascaled;      // Ascaled = 2*A: every operation of setup and solve is exact under this scaling
     std::vector<std::vector<double> > rhs;   // a few right-hand sides
-    std::vector<double> xstar, rhs_exact, rhs_exact_pert;    // rhs_exact = A * xstar (resp. Apert * xstar): xstar satisfies any tolerance
-    mutable bool cur_pert = false;           // which matrix the object currently holds (rebuild history)
+    std::vector<double> xstar, rhs_exact, rhs_exact_pert, rhs_exact_scaled;    // rhs_exact = A * xstar (resp. Apert * xstar): xstar satisfies any tolerance
+    mutable int cur_pert = 0;                // which matrix the object currently holds (rebuild history): 0 A, 1 Apert, 2 Ascaled
+    bool scaled_ok = false;                  // rebuilds with 2*A are drawn (AMG bundles without the threshold-based ILUT)
     boost::property_tree::ptree prm;
     bool relax_only; bool allow_rebuild;
     int input_mode = 0;                                   // 0: copied (tuple adapter), 1: zero-copy of the user's arrays (rows stored diagonal-first)
@@ -73,7 +74,8 @@ struct Script {
 };
 
 template <class S>
-static S* construct(const Script &sc) {
+static S* construct(const Script &sc, int which = 0) {
+    if (which == 2) { gen::Csr A2 = sc.Ascaled; return new S(A2.tie(), sc.prm); }
     if (sc.input_mode == 1) return new S(amgcl::adapter::zero_copy((size_t)sc.A.n, sc.uptr.data(), sc.ucol.data(), sc.uval.data()), sc.prm);
     gen::Csr A = sc.A;
     return new S(A.tie(), sc.prm);
@@ -107,7 +109,7 @@ static OpOut do_op(S &s, const Script &sc, const Op &op, const std::vector<doubl
                 try { std::tie(it, res) = s.solver()(s.system_matrix(), fp, f, x); } catch (...) { o.fired = fp.fired; throw; }
                 o.fired = fp.fired; break; }
             case O_APPLY_NAN: { std::vector<double> g = f; g[(size_t)a1 % n] = std::numeric_limits<double>::quiet_NaN(); s.precond().apply(g, x); break; }
-            case O_SOLVE_CONVERGED_GUESS: { (void)converged_x; x = sc.xstar; std::tie(it, res) = s(sc.cur_pert ? sc.rhs_exact_pert : sc.rhs_exact, x); break; }
+            case O_SOLVE_CONVERGED_GUESS: { (void)converged_x; x = sc.xstar; std::tie(it, res) = s(sc.cur_pert == 1 ? sc.rhs_exact_pert : sc.cur_pert == 2 ? sc.rhs_exact_scaled : sc.rhs_exact, x); break; }
             case O_OUTER_APPLY: s.apply(f, x); break;      // the bundle used as a preconditioner itself (deflated: P then projection)
             case O_SOLVE_HUGE: { std::vector<double> g = f; for (long i = 0; i < n; ++i) g[i] *= 1e300; std::tie(it, res) = s(g, x); break; }
             default: break;
@@ -120,7 +122,11 @@ static OpOut do_op(S &s, const Script &sc, const Op &op, const std::vector<doubl
     return o;
 }
 
-static void rebuild(AmgSolver &s, const Script &sc, long which) { gen::Csr B = (which & 1) ? sc.Apert : sc.A; s.precond().rebuild(B.tie()); }
+// which matrix a rebuild operation installs: 0 the original, 1 the perturbed one, 2 the original times two
+static int rebuild_target(const Script &sc, long which) { return sc.scaled_ok ? (int)(((which % 3) + 3) % 3) : (int)(which & 1); }
+static void rebuild(AmgSolver &s, const Script &sc, long which) { int t = rebuild_target(sc, which); gen::Csr B = t == 1 ? sc.Apert : t == 2 ? sc.Ascaled : sc.A; s.precond().rebuild(B.tie()); }
+static bool direct_model(const AmgSolver*) { return true; }
+template <class S> static bool direct_model(const S*) { return false; }
 static void rebuild(RelaxSolver &, const Script &, long) {}
 static void rebuild(DeflSolver &s, const Script &sc, long which) { gen::Csr B = (which & 1) ? sc.Apert : sc.A; s.precond().rebuild(B.tie()); }
 
@@ -192,7 +198,7 @@ static void run_script(const Plan &p, const Script &sc, Result &res) {
         int k = op_kind(op);
         if (k == O_REBUILD) {
             if (!sc.allow_rebuild || sc.relax_only) continue;
-            try { rebuild(*reused, sc, op.a[0]); rebuilds.push_back(op.a[0]); sc.cur_pert = (op.a[0] & 1) != 0; res.counts["rebuilds"]++; } catch (const std::exception &) { res.counts["rebuild_threw"]++; }
+            try { rebuild(*reused, sc, op.a[0]); rebuilds.push_back(op.a[0]); sc.cur_pert = rebuild_target(sc, op.a[0]); res.counts["rebuilds"]++; if (sc.cur_pert == 2) res.counts["rebuilds_with_scaled_matrix"]++; } catch (const std::exception &) { res.counts["rebuild_threw"]++; }
             continue;
         }
         const std::vector<double> *cx = 0;
@@ -200,8 +206,12 @@ static void run_script(const Plan &p, const Script &sc, Result &res) {
         if (k == O_SOLVE_CONVERGED_GUESS) { conv = sc.xstar; }
         OpOut got = do_op(*reused, sc, op2, cx);
         // the model: a freshly constructed object (same matrix, parameters, thread count; rebuilds replayed) runs this one operation
-        std::unique_ptr<S> fresh(construct<S>(sc));
-        for (size_t q = 0; q < rebuilds.size(); ++q) rebuild(*fresh, sc, rebuilds[q]);
+        // (AMG bundles: only the LAST rebuild matters - rebuild(A) must restore the original object, rebuild(2*A) must give what a
+        //  hierarchy built for 2*A directly is (exact scaling), rebuild(A') is replayed on a new object; other bundles: all rebuilds replayed)
+        std::unique_ptr<S> fresh;
+        const bool direct = direct_model((const S*)0) && sc.input_mode == 0;      // (zero-copy input: the user's rows are ordered differently from the rebuilt ones - replay)
+        if (direct && !rebuilds.empty()) { int t = rebuild_target(sc, rebuilds.back()); fresh.reset(construct<S>(sc, t == 2 ? 2 : 0)); if (t == 1) rebuild(*fresh, sc, rebuilds.back()); }
+        else { fresh.reset(construct<S>(sc)); for (size_t q = 0; q < rebuilds.size(); ++q) rebuild(*fresh, sc, rebuilds[q]); }
         OpOut want = do_op(*fresh, sc, op2, cx);
         res.counts[std::string("op_") + op_names[k]]++;
         res.hash = sim::hash_combine(res.hash, got.digest());
@@ -225,7 +235,9 @@ static void run_script(const Plan &p, const Script &sc, Result &res) {
         // whatever x held before the call must not matter
         if ((k == O_APPLY || k == O_OUTER_APPLY) && want.exc.empty()) {
             Op op3 = op2; if (op3.a.size() > 1) op3.a[1] ^= 1;      // the other initial content of x (zero / non-zero)
-            std::unique_ptr<S> fresh2(construct<S>(sc)); for (size_t q = 0; q < rebuilds.size(); ++q) rebuild(*fresh2, sc, rebuilds[q]);
+            std::unique_ptr<S> fresh2;
+            if (direct && !rebuilds.empty()) { int t = rebuild_target(sc, rebuilds.back()); fresh2.reset(construct<S>(sc, t == 2 ? 2 : 0)); if (t == 1) rebuild(*fresh2, sc, rebuilds.back()); }
+            else { fresh2.reset(construct<S>(sc)); for (size_t q = 0; q < rebuilds.size(); ++q) rebuild(*fresh2, sc, rebuilds[q]); }
             OpOut other = do_op(*fresh2, sc, op3, cx);
             if (!other.equal(want)) res.fail(sig("apply-ignores-previous-x", "output-only", op.kind, fmt("%s with x = 0 and with x != 0 on entry give different results (first difference at %ld)", op.kind.c_str(), first_diff(other.x, want.x))));
         }
@@ -259,7 +271,10 @@ Result execute(const Plan &p) {
     sc.rhs_exact.assign(n, 0.0);
     sc.rhs_exact_pert.assign(n, 0.0);
     for (long i = 0; i < n; ++i) { long double t = 0, u = 0; for (ptrdiff_t j = sc.A.ptr[i]; j < sc.A.ptr[i+1]; ++j) { t += (long double)sc.A.val[j] * sc.xstar[sc.A.col[j]]; u += (long double)sc.Apert.val[j] * sc.xstar[sc.A.col[j]]; } sc.rhs_exact[i] = (double)t; sc.rhs_exact_pert[i] = (double)u; }
-    sc.cur_pert = false;
+    sc.cur_pert = 0;
+    sc.Ascaled = sc.A; for (size_t j = 0; j < sc.Ascaled.val.size(); ++j) sc.Ascaled.val[j] *= 2.0;
+    sc.rhs_exact_scaled = sc.rhs_exact; for (long i = 0; i < n; ++i) sc.rhs_exact_scaled[i] *= 2.0;
+    sc.scaled_ok = p.get("relax") != 4 && !p.get("deflated");      // (ILUT is the statement's exception to exact power-of-two scaling; the deflated bundle has no rebuild of its own)
     sc.input_mode = (int)p.get("input_mode");
     if (sc.input_mode == 1) {
         // the user's own arrays: every row stored with its diagonal entry first (a legal CRS ordering)
